@@ -1772,8 +1772,8 @@ impl Server {
             "PSYNC" => crate::replication::handle_psync(parts, &self.replication, &self.storage, &self.rdb_engine.as_ref().unwrap()),
             "QUIT" => Ok(RespFrame::ok()),
             "EVAL" => {
-                use crate::storage::commands::lua::handle_eval_with_db;
-                match handle_eval_with_db(&self.storage, parts, db) {
+                use crate::storage::commands::lua::handle_eval_with_publish;
+                match handle_eval_with_publish(&self.storage, parts, db, Some(self.script_publish_hook())) {
                     Ok(resp) => Ok(resp),
                     Err(e) => {
                         eprintln!("[SERVER ERROR] Lua EVAL error: {}", e);
@@ -2050,27 +2050,36 @@ impl Server {
             _ => return Ok(RespFrame::error("ERR invalid message format")),
         };
         
+        Ok(RespFrame::Integer(Self::deliver_publish(&self.pubsub, &self.connections, channel, message)? as i64))
+    }
+    
+    /// The body of PUBLISH: one message per matching subscription, the number of deliveries
+    fn deliver_publish(pubsub: &PubSubManager, connections: &ShardedConnections, channel: &[u8], message: &[u8]) -> Result<usize> {
         // Get all subscribers
-        let receivers = self.pubsub.publish(channel, message)?;
+        let receivers = pubsub.publish(channel, message)?;
         let num_receivers = receivers.len();
         
         // Send message to all subscribers
-        if num_receivers > 0 {
-            for (conn_id, pattern) in receivers {
-                let frame = if let Some(pat) = pattern {
-                    format_pmessage(&pat, channel, message)
-                } else {
-                    format_message(channel, message)
-                };
-                
-                // Best effort delivery - ignore errors
-                let _ = self.connections.with_connection(conn_id, |conn| {
-                    conn.send_frame(&frame)
-                });
-            }
+        for (conn_id, pattern) in receivers {
+            let frame = if let Some(pat) = pattern {
+                format_pmessage(&pat, channel, message)
+            } else {
+                format_message(channel, message)
+            };
+            
+            // Best effort delivery - ignore errors
+            let _ = connections.with_connection(conn_id, |conn| {
+                conn.send_frame(&frame)
+            });
         }
         
-        Ok(RespFrame::Integer(num_receivers as i64))
+        Ok(num_receivers)
+    }
+    
+    /// PUBLISH for scripts: redis.call('PUBLISH', channel, message) runs the same body
+    fn script_publish_hook(&self) -> crate::storage::lua_engine::PublishFn {
+        let (pubsub, connections) = (Arc::clone(&self.pubsub), Arc::clone(&self.connections));
+        Arc::new(move |channel: &[u8], message: &[u8]| Self::deliver_publish(&pubsub, &connections, channel, message))
     }
     
     /// Handle SUBSCRIBE command
@@ -3744,7 +3753,7 @@ impl Server {
         self.log_effect(db, &eval_parts);
         
         // Execute as EVAL on the selected database
-        crate::storage::commands::lua::handle_eval_with_db(&self.storage, &eval_parts, db)
+        crate::storage::commands::lua::handle_eval_with_publish(&self.storage, &eval_parts, db, Some(self.script_publish_hook()))
     }
     
     /// Handle SCRIPT command with global script cache
